@@ -1,4 +1,131 @@
-import TonVerif.Model.Builder
+/-
+C07 — cell capacity, value ranges and read bounds are enforced.
+
+Same model and spec as C06 (`Model/Builder.lean`, `Spec/TlbVal.lean`).  `Inv b` := `b` holds at most
+1023 data bits and at most 4 references.  `Op` = every builder operation: the typed stores (`TVal`),
+`store_cell`, `store_slice` (with the slice's REMAINING bits / refs) and `store_snake_bytes`;
+`Op.run op b` = (builder after the call — partial writes of a raising call included, returned normally?).
+-/
+import TonVerif.Proofs.Typed
+import TonVerif.Proofs.OrdCell
+
 namespace TonVerif.Properties.C07
-theorem placeholder : True := trivial
+open TonVerif TonVerif.Model TonVerif.Spec.Tlb TonVerif.Proofs.Builder TonVerif.Proofs.Slice
+  TonVerif.Proofs.Typed TonVerif.Proofs.OrdCell
+variable {R : Type}
+
+/-- capacity invariant: the empty builder is within capacity; EVERY operation — whether it returns
+normally or raises after a partial write — keeps the builder within 1023 bits / 4 refs; hence so does
+every finite history of operations (induction over the list, `List.foldl`). -/
+theorem c07_invariant :
+    Proofs.Builder.Inv (Builder.empty : Builder R) ∧
+    (∀ (op : Op R) (b : Builder R), Proofs.Builder.Inv b → Proofs.Builder.Inv (op.run b).1) ∧
+    (∀ (ops : List (Op R)), Proofs.Builder.Inv (runAll ops (Builder.empty : Builder R))) :=
+  ⟨inv_empty, fun op b hb => safe_run op b hb, fun ops => inv_runAll ops _ inv_empty⟩
+
+/-- spelled out: after any history the builder holds at most 1023 bits and 4 references. -/
+theorem c07_history_bounds (ops : List (Op R)) :
+    (runAll ops (Builder.empty : Builder R)).bits.length ≤ 1023 ∧
+    (runAll ops (Builder.empty : Builder R)).refs.length ≤ 4 :=
+  inv_runAll ops _ inv_empty
+
+/-- `end_cell` on any within-capacity builder whose references are ordinary cell trees: the cell is
+produced exactly when its depth is at most 1023 (`Cell.info` = the constructor's hash/depth
+computation of C01, `none` = raises). So no produced cell exceeds 1023 bits, 4 refs or depth 1023. -/
+theorem c07_end_cell_depth (H : Bytes → Bytes) (b : Builder Cell) (hb : Proofs.Builder.Inv b) (hr : OrdWFs b.refs) :
+    (Cell.info H (.mk (-1) b.bits b.refs)).isSome ↔ ordDepth (.mk (-1) b.bits b.refs) ≤ 1023 := by
+  have wf : OrdWF (.mk (-1) b.bits b.refs) := by
+    unfold OrdWF; exact ⟨rfl, hb.1, hb.2, hr⟩
+  constructor
+  · intro h
+    by_cases hd : ordDepth (.mk (-1) b.bits b.refs) ≤ 1023
+    · exact hd
+    · have := ord_too_deep H _ wf (by omega)
+      simp [this] at h
+  · intro hd
+    obtain ⟨i, h1, _⟩ := ord_info H _ wf hd
+    simp [h1]
+
+/-- refusal, both directions, for every typed store: on a within-capacity builder the call raises
+EXACTLY when the value is out of range for its stated width or its encoding does not fit the remaining
+bits / references. (⇒: a store that fits is never refused; ⇐: overflow / out-of-range is always refused.) -/
+theorem c07_refuse_iff (tv : TVal R) (b : Builder R) (hb : Proofs.Builder.Inv b) :
+    (tv.store b).2 = false ↔ ¬ Fits tv b := by
+  have := ((store_spec tv).1 b hb).1
+  unfold Fits
+  rw [← this]
+  cases (tv.store b).2 <;> simp
+
+/-- the same for the composite stores: `store_cell(c)` and `store_slice(s)` raise exactly when the
+cell's bits / refs — for a slice its REMAINING bits / refs — do not fit. -/
+theorem c07_refuse_iff_composite (bits : Bits) (refs : List R) (b : Builder R) (hb : Proofs.Builder.Inv b) :
+    ((BOp.storeCell bits refs b).2 = false ↔ ¬ (b.bits.length + bits.length ≤ 1023 ∧ b.refs.length + refs.length ≤ 4)) ∧
+    ((BOp.storeSlice bits refs b).2 = false ↔ ¬ (b.bits.length + bits.length ≤ 1023 ∧ b.refs.length + refs.length ≤ 4)) := by
+  have h1 := ((opSpec_storeCell bits refs).1 b hb).1
+  have h2 := ((opSpec_storeSlice bits refs).1 b hb).1
+  simp only [true_and] at h1 h2
+  constructor
+  · rw [← h1]; cases (BOp.storeCell bits refs b).2 <;> simp
+  · rw [← h2]; cases (BOp.storeSlice bits refs b).2 <;> simp
+
+/-- and when they do not raise, they append exactly those bits and references. -/
+theorem c07_composite_exact (bits : Bits) (refs : List R) (b : Builder R) (hb : Proofs.Builder.Inv b) :
+    ((BOp.storeCell bits refs b).2 = true → (BOp.storeCell bits refs b).1 = ⟨b.bits ++ bits, b.refs ++ refs⟩) ∧
+    ((BOp.storeSlice bits refs b).2 = true → (BOp.storeSlice bits refs b).1 = ⟨b.bits ++ bits, b.refs ++ refs⟩) :=
+  ⟨((opSpec_storeCell bits refs).1 b hb).2, ((opSpec_storeSlice bits refs).1 b hb).2⟩
+
+/-- read bounds for the primitive consuming reads (`load_bits`, `load_uint`, `load_int`, `load_bytes`,
+`skip_bits`, `load_bit`, `load_ref`): asking for more than remains raises and leaves the slice
+unchanged; otherwise the result is exactly the next bits (as a bit string / the number they denote /
+the bytes they form) and the slice advances by exactly that many bits.  (Width 0 of `load_uint` /
+`load_int` raises: `ba2int` of an empty string.) -/
+theorem c07_read_bounds (n : Nat) (bits : Bits) (refs : List R) :
+    (SOp.loadBits n ⟨bits, refs⟩ = if bits.length < n then (⟨bits, refs⟩, none)
+        else (⟨bits.drop n, refs⟩, some (bits.take n))) ∧
+    (SOp.loadUint n ⟨bits, refs⟩ = if n = 0 ∨ bits.length < n then (⟨bits, refs⟩, none)
+        else (⟨bits.drop n, refs⟩, some (bitsVal (bits.take n) : Int))) ∧
+    (SOp.loadInt n ⟨bits, refs⟩ = if n = 0 ∨ bits.length < n then (⟨bits, refs⟩, none)
+        else (⟨bits.drop n, refs⟩, some (bitsValS (bits.take n)))) ∧
+    (SOp.loadBytes n ⟨bits, refs⟩ = if bits.length < n * 8 then (⟨bits, refs⟩, none)
+        else (⟨bits.drop (n * 8), refs⟩, some (bitsToBytes (bits.take (n * 8))))) ∧
+    (SOp.skipBits n ⟨bits, refs⟩ = if bits.length < n then (⟨bits, refs⟩, none)
+        else (⟨bits.drop n, refs⟩, some ())) ∧
+    (SOp.loadBit ⟨bits, refs⟩ = match bits with
+        | [] => (⟨bits, refs⟩, none) | b :: rest => (⟨rest, refs⟩, some b)) ∧
+    (SOp.loadRef ⟨bits, refs⟩ = match refs with
+        | [] => (⟨bits, refs⟩, none) | r :: rest => (⟨bits, rest⟩, some r)) := by
+  refine ⟨loadBits_eq n bits refs, ?_, ?_, loadBytes_eq n bits refs, skipBits_eq n bits refs, ?_, ?_⟩
+  · rw [loadUint_eq, TonVerif.Proofs.Bits.natOfBits_eq_bitsVal]
+  · rw [loadInt_eq]
+    split
+    · rfl
+    · rename_i hc
+      rw [ba2intS_eq_bitsValS]
+      exact take_isEmpty_false (by omega) (by omega)
+  · cases bits <;> rfl
+  · cases refs <;> rfl
+
+/-- every typed read (the composite ones included: var-ints, coins, maybe-refs, dicts, addresses,
+strings) — whether it returns or raises — leaves a SUFFIX of the slice it was given: it never re-reads,
+reorders or invents bits or references, and (being a sequence of the primitive reads above) raises
+as soon as one of its parts needs more than remains. -/
+theorem c07_read_suffix (k : Kind) (s : Slice R) :
+    ∃ pb pr, s.bits = pb ++ (k.load s).1.bits ∧ s.refs = pr ++ (k.load s).1.refs :=
+  mono_load k s
+
+/-! ### non-vacuity -/
+
+/-- a builder at 1020 bits / 4 refs: `store_uint(5, 3)` fits and is accepted, `store_uint(5, 4)`
+overflows, `store_uint(8, 3)` is out of range, `store_ref` has no room: the right-hand sides of
+`c07_refuse_iff` take both truth values. -/
+example : let b : Builder Nat := ⟨List.replicate 1020 false, [1, 2, 3, 4]⟩
+    Proofs.Builder.Inv b ∧ Fits (.uint 3 5) b ∧ ¬ Fits (.uint 4 5) b ∧ ¬ Fits (.uint 3 8) b ∧ ¬ Fits (.ref 9) b := by
+  simp only [Proofs.Builder.Inv, Fits, InRange, FitsUint, enc, refsOf, List.length_replicate,
+    TonVerif.Proofs.Bits.uintBits_length, List.length_cons, List.length_nil]
+  omega
+
+/-- a history with failing and succeeding operations (hypothesis-free theorem, shown on an instance) -/
+example : (runAll [Op.val (.uint 8 300), Op.val (.uint 8 200), Op.cell [true] [1, 2, 3, 4, 5], Op.val (.ref 1)]
+    (Builder.empty : Builder Nat)).refs.length ≤ 4 := (c07_history_bounds _).2
+
 end TonVerif.Properties.C07
